@@ -1,13 +1,232 @@
-(* C20 — property theorems (statements closed by `exact <lemma>`). *)
-From Coq Require Import ZArith List Bool Lia.
+(* C20 — property theorems.  Only statements closed by `exact <lemma>` (or a short
+   wrapper), each followed by Print Assumptions; Examples show that hypotheses are
+   satisfiable and record concrete behaviour of the faithful model. *)
+From Coq Require Import ZArith List Bool Lia Sorted Field.
 From IBL.lib Require Import PyInt.
 From IBL.C20 Require Import Model Proofs.
 Import ListNotations.
 Open Scope Z_scope.
 
-(* F-C20-a: smooth.lp(ts, fac, pad=0) returns an EMPTY array whatever the input
-   (ts_[lpad:-lpad] with lpad = 0 is ts_[0:0]); "keeps the input length" fails for pad = 0. *)
+(* ---------------------------------------------------------------------------
+   1. spikes_venn2 / spikes_venn3: for 2 or 3 sorters, ANY bin sizes, ANY positive
+   chunk size and any spike trains (samples >= 0) on which the function returns,
+   the result has 2^n - 1 counts and, for every sorter s, the counts of the regions
+   whose key has a '1' at position s add up to the number of spikes of sorter s.
+   (Hence no IndexError / wrap-around of pre_result[conds - 1] either.) *)
+Theorem C20_venn_conserves :
+  forall (P : vparams) (trains : list (list spike)) (res : list Z) (n s : Z),
+  n = Z.of_nat (length trains) -> n = 2 \/ n = 3 -> 0 < v_chunk P ->
+  (forall t sp, In t trains -> In sp t -> 0 <= fst sp) ->
+  venn P trains = Some res -> 0 <= s < n ->
+  Z.of_nat (length res) = 2 ^ n - 1 /\
+  region_sum n s res = Z.of_nat (length (nth (Z.to_nat s) trains [])).
+Proof. exact venn_conserves. Qed.
+Print Assumptions C20_venn_conserves.
+
+(* the hypotheses are satisfiable, several chunks, non-trivial result: {'01':1,'10':2,'11':3} *)
+Example venn_example :
+  venn {| v_xbin := 4; v_ybin := 2; v_nchan := 8; v_chunk := 10 |}
+       [[(0,0); (5,1); (13,2); (13,2); (40,3)]; [(1,0); (5,0); (13,2); (14,2)]] = Some [1; 2; 3].
+Proof. vm_compute. reflexivity. Qed.
+(* region counts themselves DO depend on an unaligned chunk size (bins are relative to the
+   chunk start); only the per-sorter sums are invariant *)
+Example venn_unaligned_chunking_changes_regions :
+  venn {| v_xbin := 4; v_ybin := 2; v_nchan := 8; v_chunk := 100 |} [[(3,0)]; [(4,0)]] = Some [1; 1; 0] /\
+  venn {| v_xbin := 4; v_ybin := 2; v_nchan := 8; v_chunk := 3 |} [[(3,0)]; [(4,0)]] = Some [0; 0; 1].
+Proof. vm_compute. split; reflexivity. Qed.
+
+(* ---------------------------------------------------------------------------
+   2. voltage.stack: one row per distinct label, labels in strictly increasing
+   order; row k is the aggregate of exactly the traces carrying label k (in their
+   original order); fold = multiplicity > 0; folds add up to the trace count. *)
+Theorem C20_stack_spec :
+  forall (A B : Type) (agg : list A -> B) (data : list A) (word : list Z) st fold,
+  length data = length word -> stack agg data word = (st, fold) ->
+  let groups := uniq_sorted word in
+  StronglySorted Z.lt groups /\ (forall g, In g groups <-> In g word) /\
+  st = map (fun g => agg (select word data g)) groups /\
+  fold = map (fun g => count_eq g word) groups /\
+  (forall g, In g groups -> 0 < count_eq g word /\
+             Z.of_nat (length (select word data g)) = count_eq g word) /\
+  (forall g row, In row (select word data g) <->
+                 exists k, nth_error word k = Some g /\ nth_error data k = Some row) /\
+  zsum fold = Z.of_nat (length word).
+Proof. intros A B. exact (@stack_spec A B). Qed.
+Print Assumptions C20_stack_spec.
+
+Example stack_example :
+  stack (fun rows => rows) [10; 20; 30; 40] [5; 3; 5; 3] = ([[20; 40]; [10; 30]], [2; 2]).
+Proof. vm_compute. reflexivity. Qed.
+
+(* ---------------------------------------------------------------------------
+   3. smooth.rolling_window keeps the length for EVERY window_len >= 3 (both
+   parities; Python's round is half-to-even) and every input at least that long;
+   every output combines exactly window_len input samples. *)
+Theorem C20_rolling_keeps_length :
+  forall (A : Type) (w : Z) (x : list A), 3 <= w <= Z.of_nat (length x) ->
+  length (rolling_windows w x) = length x /\
+  forall win, In win (rolling_windows w x) ->
+    Z.of_nat (length win) = w /\ forall y, In y win -> In y x.
+Proof. intros A. exact (@rolling_keeps_length A). Qed.
+Print Assumptions C20_rolling_keeps_length.
+
+(* ... and returns constants unchanged, for any window whose weights do not sum to zero,
+   over any field (the normalisation w / w.sum() is part of the model). *)
+Theorem C20_rolling_constant :
+  forall (R : Type) (rO rI : R) (radd rmul rsub : R -> R -> R) (ropp : R -> R)
+         (rdiv : R -> R -> R) (rinv : R -> R),
+  field_theory rO rI radd rmul rsub ropp rdiv rinv (@eq R) ->
+  forall (w : list R) (c : R) (n : nat),
+  rsuml R rO radd w <> rO -> (3 <= length w <= n)%nat ->
+  rolling R rO radd rmul rdiv w (repeat c n) = repeat c n.
+Proof. exact rolling_constant. Qed.
+Print Assumptions C20_rolling_constant.
+
+(* the output is NOT centred for window_len = 3 mod 4 (default 11): output k is the window
+   centred on sample k-1 (round(4.5) = 4): output 10 of a length-30 input reads samples 4..14 *)
+Example rolling_default_window_is_delayed_by_one :
+  option_map (fun t => nth 10 t []) (rolling_taps 30 11) = Some [14; 13; 12; 11; 10; 9; 8; 7; 6; 5; 4] /\
+  option_map (fun t => nth 10 t []) (rolling_taps 30 9) = Some [14; 13; 12; 11; 10; 9; 8; 7; 6].
+Proof. vm_compute. split; reflexivity. Qed.
+
+(* ---------------------------------------------------------------------------
+   4. smooth.lp keeps the length for every pad > 0 (pad = m * 2^-e as a float64,
+   lpad = int(ceil(float64(n * pad)))) and any length-preserving filter ... *)
+Theorem C20_lp_keeps_length :
+  forall (A : Type) (filt : list A -> list A) (m e : Z) (x : list A),
+  (forall l, length (filt l) = length l) -> 0 < m -> 0 <= e -> x <> [] ->
+  0 < lpad_of (Z.of_nat (length x)) m e /\
+  length (lp filt (lpad_of (Z.of_nat (length x)) m e) x) = length x.
+Proof.
+  intros A filt m e x Hf Hm He Hx.
+  assert (0 < lpad_of (Z.of_nat (length x)) m e).
+  { apply lpad_of_pos; try assumption. destruct x; [contradiction | cbn [length]; lia]. }
+  split; [assumption | now apply lp_keeps_length].
+Qed.
+Print Assumptions C20_lp_keeps_length.
+
+(* ... and returns constants unchanged when the filter does (DC gain 1). *)
+Theorem C20_lp_constant :
+  forall (A : Type) (filt : list A -> list A) (lpad : Z) (c : A) (n : nat),
+  (forall k, filt (repeat c k) = repeat c k) -> 0 < lpad ->
+  lp filt lpad (repeat c n) = repeat c n.
+Proof. intros A. exact (@lp_constant A). Qed.
+Print Assumptions C20_lp_constant.
+
+(* F-C20-a: with pad = 0 the result is EMPTY whatever the input (ts_[0:-0]). *)
 Theorem C20_lp_pad_zero_refuted : forall (A : Type) (filt : list A -> list A) (x : list A),
-  lp filt 0 x = [].
-Proof. exact lp_pad_zero_empty. Qed.
+  lpad_of (Z.of_nat (length x)) 0 0 = 0 /\ lp filt 0 x = [].
+Proof. intros A filt x. split; [unfold lpad_of; rewrite Z.mul_0_r; reflexivity | apply lp_pad_zero_empty]. Qed.
 Print Assumptions C20_lp_pad_zero_refuted.
+
+(* ---------------------------------------------------------------------------
+   5. non_uniform_savgol: over any field, for ANY abscissae, samples of a polynomial
+   of degree <= polynom are returned unchanged — interior and both borders —
+   provided np.linalg.inv returns a left inverse of the normal matrix of every
+   interior window (which exists iff the window has > polynom distinct abscissae). *)
+Theorem C20_savgol_reproduces_polynomials :
+  forall (R : Type) (rO rI : R) (radd rmul rsub : R -> R -> R) (ropp : R -> R)
+         (rdiv : R -> R -> R) (rinv : R -> R),
+  field_theory rO rI radd rmul rsub ropp rdiv rinv (@eq R) ->
+  forall (minv : list (list R) -> list (list R)) (window polynom : Z) (x q : list R),
+  window mod 2 = 1 -> 0 <= polynom < window -> window < Z.of_nat (length x) ->
+  length q = Z.to_nat (polynom + 1) ->
+  let half := Z.to_nat (window / 2) in
+  (forall i, (half <= i < length x - half)%nat ->
+     let ts := map (fun xx => rsub xx (nth i x rO)) (firstn (2 * half + 1) (skipn (i - half) x)) in
+     left_inverse R rO rI radd rmul (Z.to_nat (polynom + 1))
+                  (minv (normal_mat R rO rI radd rmul (Z.to_nat (polynom + 1)) ts))
+                  (normal_mat R rO rI radd rmul (Z.to_nat (polynom + 1)) ts)) ->
+  savgol R rO rI radd rmul rsub minv window polynom x (map (peval R rO rI radd rmul q) x)
+  = inr (map (peval R rO rI radd rmul q) x).
+Proof. exact savgol_public. Qed.
+Print Assumptions C20_savgol_reproduces_polynomials.
+
+(* ---------------------------------------------------------------------------
+   6. cadzow: every trace index occurs in the Toeplitz-like index matrix of any size,
+   and for any layout with distinct sites every trace occurs in the block trajectory
+   matrix (trcount > 0: the final division is defined). *)
+Theorem C20_traj_indices_cover : forall n, 1 <= n ->
+  (forall row, In row (traj_idx n) -> forall v, In v row -> 0 <= v < n) /\
+  (forall k, 0 <= k < n -> exists row, In row (traj_idx n) /\ In k row).
+Proof. exact traj_idx_spec. Qed.
+Print Assumptions C20_traj_indices_cover.
+
+Theorem C20_traj_every_trace_occurs : forall (x y : list Z) (k : nat),
+  length x = length y -> NoDup (combine x y) -> (k < length x)%nat ->
+  let '(nrows, ncols, entries) := traj_entries x y in
+  Z.of_nat (length entries) = nrows * ncols /\ In (Z.of_nat k) entries /\
+  0 < count_eq (Z.of_nat k) entries.
+Proof. exact traj_every_trace_occurs. Qed.
+Print Assumptions C20_traj_every_trace_occurs.
+
+Example traj_example :   (* 2 columns x 4 rows *)
+  traj_entries [0; 16; 0; 16; 0; 16; 0; 16] [0; 0; 20; 20; 40; 40; 60; 60]
+  = (6, 2, [2; 0; 4; 2; 6; 4; 3; 1; 5; 3; 7; 5]).
+Proof. vm_compute. reflexivity. Qed.
+
+(* cadzow.denoise on one frequency returns its input when the rank is not reduced
+   (derank returns the trajectory matrix), in any field of characteristic 0. *)
+Theorem C20_denoise_identity :
+  forall (R : Type) (rO rI : R) (radd rmul rsub : R -> R -> R) (ropp : R -> R)
+         (rdiv : R -> R -> R) (rinv : R -> R),
+  field_theory rO rI radd rmul rsub ropp rdiv rinv (@eq R) ->
+  forall (derank : list R -> list R) (entries : list Z) (w : list R),
+  (forall n, (0 < n)%nat -> rofnat R rO rI radd n <> rO) ->
+  (forall k, 0 <= k < Z.of_nat (length w) -> 0 < count_eq k entries) ->
+  derank (fill R rO entries w) = fill R rO entries w ->
+  denoise1 R rO rI radd rdiv derank entries w = w.
+Proof. exact denoise_identity. Qed.
+Print Assumptions C20_denoise_identity.
+
+(* a single plane wave A u^i v^j on a complete regular grid fills the block trajectory
+   matrix with an outer product f(row) * g(column): rank one. *)
+Theorem C20_plane_wave_rank1 :
+  forall (R : Type) (rO rI : R) (radd rmul rsub : R -> R -> R) (ropp : R -> R),
+  ring_theory rO rI radd rmul rsub ropp (@eq R) ->
+  forall (A u v : R) (nx ny r c : Z),
+  1 <= nx -> 1 <= ny ->
+  0 <= r < traj_rows ny * traj_rows nx -> 0 <= c < traj_cols ny * traj_cols nx ->
+  let nry := traj_rows ny in let ncy := traj_cols ny in
+  rmul (rmul A (zpw R rI rmul u (traj_at nx (r / nry) (c / ncy))))
+       (zpw R rI rmul v (traj_at ny (r mod nry) (c mod ncy)))
+  = rmul (rmul (rmul A (zpw R rI rmul u (r / nry))) (zpw R rI rmul v (r mod nry)))
+         (rmul (zpw R rI rmul u (traj_cols nx - 1 - c / ncy)) (zpw R rI rmul v (ncy - 1 - c mod ncy))).
+Proof. exact plane_wave_rank1. Qed.
+Print Assumptions C20_plane_wave_rank1.
+
+(* ---------------------------------------------------------------------------
+   non-vacuity of the Savitzky-Golay hypotheses *)
+From Coq Require Import QArith Qcanon.
+Open Scope Z_scope.
+(* the hypotheses of C20_savgol_reproduces_polynomials are satisfiable: canonical rationals Qc
+   (Leibniz equality), a 2x2 adjugate inverse as np.linalg.inv, irregular abscissae *)
+Definition qc (z : Z) : Qc := Q2Qc (inject_Z z).
+Definition inv2 (M : list (list Qc)) : list (list Qc) :=
+  match M with
+  | [[a; b]; [c; d]] => let det := (a * d - b * c)%Qc in
+                        [[(d / det)%Qc; (- b / det)%Qc]; [(- c / det)%Qc; (a / det)%Qc]]
+  | _ => []
+  end.
+Definition xs := map qc [0; 1; 3; 4; 9; 10].
+
+Lemma qc_eq (a b : Qc) : Qeq_bool a b = true -> a = b.
+Proof. intros H. apply Qc_is_canon. now apply Qeq_bool_eq. Qed.
+
+Example savgol_hypotheses_satisfiable :
+  savgol Qc 0%Qc 1%Qc Qcplus Qcmult Qcminus inv2 3 1 xs
+         (map (peval Qc 0%Qc 1%Qc Qcplus Qcmult [qc 2; qc (-3)]) xs)
+  = inr (map (peval Qc 0%Qc 1%Qc Qcplus Qcmult [qc 2; qc (-3)]) xs).
+Proof.
+  apply (savgol_public Qc 0%Qc 1%Qc Qcplus Qcmult Qcminus Qcopp Qcdiv Qcinv Qcft inv2);
+    try reflexivity; try (cbn; lia).
+  intros i Hi. change (Z.to_nat (3 / 2)) with 1%nat in Hi. cbn [xs map length] in Hi.
+  assert (Hc : i = 1%nat \/ i = 2%nat \/ i = 3%nat \/ i = 4%nat) by lia.
+  destruct Hc as [-> | [-> | [-> | ->]]];
+    (split; [reflexivity|]; split;
+     [intros row [<-|[<-|[]]]; reflexivity|];
+     intros k' m Hk Hm;
+     assert (Hk' : k' = 0%nat \/ k' = 1%nat) by lia;
+     assert (Hm' : m = 0%nat \/ m = 1%nat) by lia;
+     destruct Hk' as [-> | ->]; destruct Hm' as [-> | ->]; apply qc_eq; vm_compute; reflexivity).
+Qed.
